@@ -91,12 +91,12 @@ CHECKS['C14'] = {
 }
 
 CHECKS['C08'] = {
-    'engine': 'V',
-    'technique': 'Verus panic/overflow/bounds/termination obligations of every function under contract (roll-up of all units)',
+    'engine': 'V+K',
+    'technique': 'Verus panic/overflow/bounds/termination obligations of every function under contract (roll-up of all units); Kani harnesses for the float exponent parser and the #include depth bound',
     'level_text': 'Unbounded deductive proof (Verus) that no panic!, failed assert!/assert_eq!, index out of bounds, arithmetic overflow or division by zero is reachable in any of the '
                   'functions under contract (listed in the evidence file) for inputs satisfying the stated preconditions, and that their loops terminate where a decreases clause is given.',
     'level_note': 'Partial by construction: covers only the functions under contract (about 120, listed in the evidence file), under their preconditions; the other panic sites, stack depth and the time bound of compile() are not decided. '
-                  'Two pointer-range debug_asserts in TokenStream::next are outside the verifier memory model (assumed). Termination of get_type_layout/has_same_offsets recursion is not verified. Pipeline names: the guard find_pipeline_location is verified, that parse_pipeline calls it before appending is not; select_pipeline and compile() abort on duplicate names and are outside both engines.',
+                  'Two pointer-range debug_asserts in TokenStream::next are outside the verifier memory model (assumed). Termination of get_type_layout/has_same_offsets recursion is not verified. #include recursion: the depth bound is decided by a bounded Kani harness (one token shape) with loader and nested call replaced by recorders; the stack needed per level (about 4 KB in debug builds) against the available stack is not decided. Pipeline names: the guard find_pipeline_location is verified, that parse_pipeline calls it before appending is not; select_pipeline and compile() abort on duplicate names and are outside both engines.',
 }
 
 CHECKS['C07'] = {
